@@ -12,8 +12,10 @@ rm -rf $WT; git -C /repo worktree add -q --detach $WT HEAD || exit 2
 cp $SRC/demo$N.rs $WT/tests/demo_${ID}_$N.rs
 cd $WT
 {
+DEMOFLAGS=""
+[ -n "$DEMO_CFG" ] && DEMOFLAGS="--cfg pearl_verif"
 echo "== demo without change"
-cargo test --offline --test demo_${ID}_$N 2>&1 | grep -E "^test result|^test .*FAILED|error(\[|:)" | head -8
+RUSTFLAGS="$DEMOFLAGS" CARGO_TARGET_DIR=$WT/target-demo cargo test --offline --test demo_${ID}_$N 2>&1 | grep -E "^test result|^test .*FAILED|error(\[|:)" | head -8
 R0=${PIPESTATUS[0]}
 echo "exit=$R0"
 echo "== apply"
@@ -21,7 +23,7 @@ git apply $SRC/patch$N.diff && echo applied || echo "APPLY FAILED"
 echo "== build+baseline with change"
 cargo test --workspace --no-fail-fast --offline 2>&1 | grep -E "^test result|FAILED|^error" | grep -v "demo_" | head -12
 echo "== demo with change"
-cargo test --offline --test demo_${ID}_$N 2>&1 | grep -E "^test result|^test .*FAILED|error(\[|:)" | head -8
+RUSTFLAGS="$DEMOFLAGS" CARGO_TARGET_DIR=$WT/target-demo cargo test --offline --test demo_${ID}_$N 2>&1 | grep -E "^test result|^test .*FAILED|error(\[|:)" | head -8
 } > $OUT 2>&1
 cd /
 git -C /repo worktree remove --force $WT
